@@ -39,7 +39,21 @@ TRUSTED_BASE = [
 
 
 def log(*a):
-    print(*a, file=sys.stderr, flush=True)
+    try:
+        print(*a, file=sys.stderr, flush=True)
+    except BrokenPipeError:
+        pass
+
+
+def say(line):
+    """a verdict line on stdout; a reader that closed the pipe early must not change the verdict or lose the evidence"""
+    try:
+        print(line, flush=True)
+    except BrokenPipeError:
+        try:
+            sys.stdout = open(os.devnull, "w")
+        except Exception:
+            pass
 
 
 class Lock:
@@ -350,7 +364,7 @@ class Ctx:
         line = "KNOWN-FINDING: property=%s %s" % (self.prop, what)
         if line not in self.known_printed:
             self.known_printed.append(line)
-            print(line, flush=True)
+            say(line)
 
 
 def write_replay(ctx, v, suffix=""):
@@ -396,7 +410,7 @@ def finish(ctx, level_text=""):
     if ctx.violations:
         for v in ctx.violations[:3]:
             path = write_replay(ctx, v)
-            print("VIOLATION property=%s replay=%s" % (ctx.prop, os.path.relpath(path, VERIF)), flush=True)
+            say("VIOLATION property=%s replay=%s" % (ctx.prop, os.path.relpath(path, VERIF)))
         rc = 1
     elif ctx.broken or not proof["ok"]:
         v = {"what": "the property is no longer shown to hold: a proof obligation or the correspondence "
@@ -404,7 +418,7 @@ def finish(ctx, level_text=""):
              "proof_problems": proof["problems"], "correspondence_breaks": ctx.broken[:20],
              "theorems": [t for t in proof["theorems"] if t["status"] != "proved"]}
         path = write_replay(ctx, v, "-nofail")
-        print("VIOLATION property=%s replay=%s no-failing-input-found" % (ctx.prop, os.path.relpath(path, VERIF)), flush=True)
+        say("VIOLATION property=%s replay=%s no-failing-input-found" % (ctx.prop, os.path.relpath(path, VERIF)))
         rc = 1
     log("[%s] %s tier=%s wall=%.1fs evaluations=%d obligations=%d/%d" % (
         ctx.prop, "OK" if rc == 0 else "FAIL", ctx.tier, time.time() - ctx.t0,
